@@ -4,6 +4,14 @@ import json, sys
 
 ENGINE = "gsx"
 CHECKS = {
+ "C05": dict(
+   text="uacp.Conn.Receive (with io.ReadFull/ReadAtLeast from their SSA) is executed on an arbitrary symbolic byte stream read through a TCP model whose reads return symbolic lengths; the result of every call is compared with a reference framing of the stream (deliver exactly the frame bytes; error for size < 8, size > buffer, truncation, ERR frames).",
+   note="Bounds: streams up to 16/22 symbolic bytes, receive buffers {8,12,24}, up to 2/3 frames, every placement of <= 2/3 short reads plus byte-at-a-time. Trusted: go/ssa, gsx, z3, the reference framing in the harness.",
+   ref="DESIGN.md §5 C05"),
+ "C06": dict(
+   text="The real Hello/Acknowledge exchange (client Handshake against server srvhandshake over a modelled pipe) runs with all eight limits symbolic and the resulting per-side send/receive buffers are compared with what the other side advertised; the secure channel's receive-side and send-side message limits are checked on 1..3-chunk messages with symbolic limits (0 = unlimited).",
+   note="Found and fixed: buffer negotiation (3a8fee5), zero limits on receive (ff5f211). Known finding (listed in known_findings.json): no send-side enforcement of the peer's message limits. Bounds: buffers [8192, 2^20], limits any uint32. Trusted: go/ssa, gsx, cvc5.",
+   ref="DESIGN.md §5 C06"),
  "C16": dict(
    text="Kernel of the property: the real handleOpenSecureChannelResponse, scheduleRenewal and scheduleExpiration are executed symbolically with the revised and the requested lifetime as free uint32 variables; the durations handed to the timers are checked against lifetime/2 <= renew < lifetime and lifetime <= expiry <= 1.25*lifetime.",
    note="Kernel only: schedules of concurrent requests around a renewal are outside the claim. Bounds: every lifetime >= 1 ms. Found and fixed (9c26e30): whole-second truncation for short lifetimes. Trusted: go/ssa, gsx, cvc5; native replay observes the renewal request / instance removal in real time.",
